@@ -186,6 +186,20 @@ def run(repo: Repo, rep: Report, tier: str) -> None:
             rep.check(keeps_current, "C16-R3", f"lower_for_stmt keeps what an iteration assigns to outer names in ASTLowerer.{attr}",
                       "rebuilt from the current map (outer names keep the iteration's assignments)" if keeps_current else
                       f"{attr} is replaced by the pre-iteration snapshot: `Entity cur = place(...); for i in 0..3 {{ cur = place(...); }}` loses every re-binding, the next iteration and the code after the loop see the old entity", lf.loc(restored[0]))
+    # which names belong to one iteration is a matter of syntax — the iterator and what the body declares — not of what happened to the tables: a name the body
+    # re-declares over an outer name is in the table before and after the iteration, so a key difference never contains it
+    sets_seen = 0
+    for st_r in [x for x in after if isinstance(x, ast.Assign) and isinstance(x.value, ast.DictComp)]:
+        for cmp_ in [x for x in ast.walk(st_r.value) if isinstance(x, ast.Compare) and isinstance(x.ops[0], ast.In) and isinstance(x.comparators[0], ast.Name)]:
+            dtxt = clf.text(cmp_.comparators[0])
+            if dtxt.startswith("dict(") or ".copy()" in dtxt:
+                continue  # the saved table itself
+            sets_seen += 1
+            ok_l = "iterator_name" in dtxt and ".body" in dtxt and ".name" in dtxt
+            rep.check(ok_l, "C16-R3", f"lower_for_stmt: the iteration's own names in `{norm(st_r.targets[0])}` are the iterator and the body's declarations",
+                      dtxt[:100] if ok_l else
+                      f"computed as `{dtxt[:100]}`: a declaration that shadows an outer name (`Signal d = b; for i in 0..2 {{ Signal d = c + i; }}`) is not among them, the outer d keeps the last iteration's value", lf.loc(st_r))
+    rep.floor("C16-R3", "membership tests on the iteration's own names", sets_seen, 2)
     vf = repo.func("SemanticAnalyzer.visit_ForStmt")
     cvf = canon(vf)
     vloops = [n for n in walk_local(vf.node) if isinstance(n, ast.For) and isinstance(cvf.node(n.iter), ast.Call) and call_name(cvf.node(n.iter)) == "get_iteration_values"]
